@@ -1,11 +1,14 @@
 import SaModel.Build.Finish
+import SaModel.Lemmas.C18Assembled
+import SaModel.Lemmas.C18ReadAs
+import SaModel.Lemmas.C18Push
 /-
 C18 — every conversion error names the field that caused it (serializer side).
 Errors carry annotations exactly as `ContextSupport::ctx` builds them: a context annotates only an error that
 carries no annotations yet, so the innermost builder that wraps a failure wins.
 -/
 namespace SaModel.Props.C18
-open SaModel SaModel.Build
+open SaModel SaModel.Build SaModel.Read
 
 /-- a context never changes a success, a panic, or an error that is already annotated -/
 theorem ctx_ok {α} (ann : List (String × String)) (r : R α) (v : α) : ctx ann r = .ok v ↔ r = .ok v := by
@@ -97,5 +100,234 @@ theorem leaf_error_names_leaf (ext : Ext) (p : String) (k : LeafKind) (v : Valid
   rw [push]
   simp only [pushScalar, h, bind, Except.bind]
   simp [ctx, B.ann]
+
+/-! ## path assembly (builder half)
+
+`segsDT dt md` (Lemmas/C18Paths.lean) lists the positions of a schema as lists of child names, with the Rust
+conventions (struct child: raw name; list / map / union children through `ChildName`, i.e. `<empty>` for the empty
+name; map children below the entries name; dictionary `key` / `value`), `render root segs` joins them with `.`
+below `root`, `positions b` reads the (path, label) pairs off a builder tree. -/
+
+/-- **paths_assembled.** For every schema, every builder of the tree `build_builder` creates at `path` stores
+`path` followed by the `.`-joined child names that lead to it, and is of the family (label) the data type there
+asks for — all positions of the schema, in schema order, nothing else.  By recursion over the schema. -/
+theorem paths_assembled (dt : DataType) (path : String) (nullable : Bool) (md : Metadata) (b : B)
+    (h : newDT path dt nullable md = .ok b) :
+    positions b = (segsDT dt md).map fun q => (render path q.1, q.2) :=
+  newDT_positions dt path nullable md b h
+
+/-- the root builder of `OuterSequenceBuilder::new`: the paths are `$`-rooted -/
+theorem paths_assembled_root (fields : List Field) (root : B) (h : newRoot fields = .ok root) :
+    positions root = (segsDT (.struct (Fields.ofList fields)) []).map fun q => (render "$" q.1, q.2) :=
+  newRoot_positions h
+
+/-- in particular the builder itself sits at `path` … -/
+theorem newDT_path (dt : DataType) (path : String) (nullable : Bool) (md : Metadata) (b : B)
+    (h : newDT path dt nullable md = .ok b) : b.path = path := by
+  have hp := paths_assembled dt path nullable md b h
+  obtain ⟨rest, hr⟩ := positions_head b
+  rw [hr] at hp
+  have hs : ∃ l r, segsDT dt md = ([], l) :: r := by
+    cases dt <;> first
+      | exact ⟨_, _, by simp only [segsDT]; rfl⟩
+      | (rename_i e s; obtain ⟨en, edt, enl, emd⟩ := e
+         cases edt <;> first
+          | exact ⟨_, _, by simp only [segsDT]; rfl⟩
+          | (rename_i fs; cases fs with
+             | nil => exact ⟨_, _, by simp only [segsDT]; rfl⟩
+             | cons kf r => cases r with
+               | nil => exact ⟨_, _, by simp only [segsDT]; rfl⟩
+               | cons vf r2 => exact ⟨_, _, by simp only [segsDT]; rfl⟩))
+  obtain ⟨l, r, hs⟩ := hs
+  rw [hs] at hp
+  simp only [List.map_cons, render_nil, List.cons.injEq, Prod.mk.injEq] at hp
+  exact hp.1.1
+
+/-- … and every builder below it sits at `path` extended by child names of the schema: never at a sibling of
+`path`, never outside -/
+theorem positions_below (dt : DataType) (path : String) (nullable : Bool) (md : Metadata) (b : B)
+    (h : newDT path dt nullable md = .ok b) (q : Pos) (hq : q ∈ positions b) :
+    ∃ segs, (segs, q.2) ∈ segsDT dt md ∧ q.1 = render path segs := by
+  rw [paths_assembled dt path nullable md b h, List.mem_map] at hq
+  obtain ⟨s, hs, rfl⟩ := hq
+  exact ⟨s.1, hs, rfl⟩
+
+/-- non-vacuity: `{orders: List<element: Struct{price: Int32, "": Utf8}>, m: Map<entries: {key: Utf8, value: Dictionary<Int8, Utf8>}>}`.
+The empty struct child name is shown raw (`$.orders.element.`), as `build_struct` does. -/
+example :
+    (do let root ← newRoot [
+          .mk "orders" (.list (.mk "element" (.struct (.cons (.mk "price" .int32 false [])
+            (.cons (.mk "" .utf8 true []) .nil))) false [])) false [],
+          .mk "m" (.map (.mk "" (.struct (.cons (.mk "key" .utf8 false [])
+            (.cons (.mk "value" (.dictionary .int8 .utf8) true []) .nil))) false []) false) false []]
+        pure (positions root)) =
+      .ok [("$", "Struct(..)"), ("$.orders", "List"), ("$.orders.element", "Struct(..)"),
+        ("$.orders.element.price", "Int32"), ("$.orders.element.", "Utf8"),
+        ("$.m", "Map(..)"), ("$.m.<empty>.key", "Utf8"), ("$.m.<empty>.value", "Dictionary(..)"),
+        ("$.m.<empty>.value.key", "Int8"), ("$.m.<empty>.value.value", "Utf8")] := by decide
+
+/-! ## where an error of `push` can point (builder half)
+
+`ExtPlain ext`: the functions of other crates the builders call (date / time / decimal parsers, float formatting)
+return plain errors — they cannot know serde_arrow's annotations.  `ExtPlain {}` holds for the default `Ext`. -/
+
+/-- **push_error_position.** For every builder family, every builder state and every serde value: an annotated
+error `push` returns carries exactly the annotation (`field` = path, `data_type` = label) of one builder of the
+subtree of `b` — `b` itself or a builder below it; never a sibling, never one outside.  (With `push_not_plain`:
+every error is annotated, so every `Err` of `push` names such a builder.) -/
+theorem push_error_position (ext : Ext) [ExtPlain ext] (x : SVal) (b : B) (msg : String) (ann : List (String × String))
+    (h : push ext b x = .error (.errCtx msg ann)) :
+    ∃ q ∈ positions b, ann = [("data_type", q.2), ("field", q.1)] :=
+  push_within ext x b msg ann h
+
+/-- rows pushed successfully do not move any builder: the positions are those of the fresh tree -/
+theorem foldl_push_positions (ext : Ext) : ∀ (rows : List SVal) (b0 b : B), rows.foldlM (push ext) b0 = .ok b →
+    positions b = positions b0
+  | [], b0, b, h => by simp [List.foldlM, pure, Except.pure] at h; subst h; rfl
+  | x :: rest, b0, b, h => by
+    simp only [List.foldlM] at h
+    obtain ⟨b1, h1, h⟩ := (Build.bind_ok _ _ _).1 h
+    rw [foldl_push_positions ext rest b1 b h, positions_of_takeRest (push_takeRest ext x b0 b1 h1)]
+
+/-- **push_error_position, schema form.** A builder created by `build_builder` at `path` for a field of type
+`dt`, after any number of successfully pushed rows: an error of the next `push` names `path` extended by the child
+names of a position of the schema (`segsDT`), and `data_type` is the label of the builder family at that position. -/
+theorem push_error_in_schema (ext : Ext) [ExtPlain ext] (dt : DataType) (path : String) (nullable : Bool) (md : Metadata)
+    (b0 : B) (h0 : newDT path dt nullable md = .ok b0) (rows : List SVal) (b : B)
+    (hb : rows.foldlM (push ext) b0 = .ok b) (x : SVal) (e : Fail) (h : push ext b x = .error e) :
+    (∃ site, e = .panic site) ∨
+    ∃ msg segs label, (segs, label) ∈ segsDT dt md ∧
+      e = .errCtx msg [("data_type", label), ("field", render path segs)] := by
+  cases e with
+  | panic s => exact .inl ⟨s, rfl⟩
+  | err msg => exact absurd h (push_not_plain ext x b msg)
+  | errCtx msg ann =>
+    obtain ⟨q, hq, rfl⟩ := push_error_position ext x b msg ann h
+    rw [foldl_push_positions ext rows b0 b hb] at hq
+    obtain ⟨segs, hs, hr⟩ := positions_below dt path nullable md b0 h0 q hq
+    exact .inr ⟨msg, segs, q.2, hs, by rw [hr]⟩
+
+/-- the same for the root builder of `to_marrow` / `ArrayBuilder`: `$`-rooted paths of the record schema -/
+theorem push_error_in_record (ext : Ext) [ExtPlain ext] (fields : List Field) (root0 : B) (h0 : newRoot fields = .ok root0)
+    (rows : List SVal) (root : B) (hb : rows.foldlM (push ext) root0 = .ok root) (x : SVal) (e : Fail)
+    (h : push ext root x = .error e) :
+    (∃ site, e = .panic site) ∨
+    ∃ msg segs label, (segs, label) ∈ segsDT (.struct (Fields.ofList fields)) [] ∧
+      e = .errCtx msg [("data_type", label), ("field", render "$" segs)] := by
+  cases e with
+  | panic s => exact .inl ⟨s, rfl⟩
+  | err msg => exact absurd h (push_not_plain ext x root msg)
+  | errCtx msg ann =>
+    obtain ⟨q, hq, rfl⟩ := push_error_position ext x root msg ann h
+    rw [foldl_push_positions ext rows root0 root hb, paths_assembled_root fields root0 h0, List.mem_map] at hq
+    obtain ⟨s, hs, rfl⟩ := hq
+    exact .inr ⟨msg, s.1, s.2, hs, rfl⟩
+
+/-- non-vacuity: `{orders: List<element: Struct{price: Int32}>}`, one good row, then a row whose second order has a
+string where the price should be: the error names `$.orders.element.price` / `Int32` — not `$.orders`, not `$` -/
+example :
+    (do let root ← newRoot [.mk "orders" (.list (.mk "element" (.struct (.cons (.mk "price" .int32 false []) .nil)) false [])) false []]
+        let root ← push {} root (.record "R" (.cons "orders" 0 (.seq (.cons (.record "O" (.cons "price" 0 (.int .i32 5) .nil)) .nil)) .nil))
+        push {} root (.record "R" (.cons "orders" 0 (.seq (.cons (.record "O" (.cons "price" 0 (.int .i32 6) .nil))
+          (.cons (.record "O" (.cons "price" 0 (.str "seven") .nil)) .nil))) .nil))) =
+      .error (.errCtx "serialize_str is not supported" [("data_type", "Int32"), ("field", "$.orders.element.price")]) := by
+  decide
+
+/-! ## reader half
+
+Model: `SaModel/Read/Annot.lean` — the reads of `Read/Reader.lean` with the paths `ArrayDeserializer::new`
+assembles and the `.ctx(self)` wrappers of every reader.  `AnnFixes.all` is the code after the two `fix:` commits
+of this property (EnumDeserializer::deserialize_enum and FixedSizeListDeserializer::deserialize_seq had no
+wrapper), `AnnFixes.pinned` the tree before them. -/
+
+/-- **paths_assembled, readers.** The reader tree `ArrayDeserializer::new(path, _, view)` builds has one reader per
+position of the view's type (`segsArr`: child names through `ChildName`, map children below the entries name, no
+child readers below a dictionary), each at `path` followed by the `.`-joined child names, labelled with the family
+of the view there.  By recursion over the view. -/
+theorem reader_paths_assembled (a : Arr) (path : String) :
+    rpositions path a = (segsArr a).map fun q => (render path q.1, q.2) :=
+  rpositions_eq a path
+
+/-- **read_not_plain.** No `deserialize_any` and no typed read (any target shape, any view, any row) returns an
+error without annotations. -/
+theorem read_not_plain (fx : Fixes) (t : Target) (p : String) (a : Arr) (idx : Nat) (msg : String) :
+    readAnyA fx p a idx ≠ .error (.err msg) ∧ readAsA AnnFixes.all fx p t a idx ≠ .error (.err msg) :=
+  ⟨readAnyA_not_plain fx p a idx msg, readAsA_not_plain fx t p a idx msg⟩
+
+/-- **read_error_position.** Every annotated error a read of the reader at `p` returns carries `field` = the path
+and `data_type` = the label of a reader of its own subtree: the reader itself or one below it, never a sibling,
+never one outside.  (Holds before the fixes as well: what the pinned tree gets wrong is *which* reader of the
+path — see `pinned_union_blames_ancestor`.) -/
+theorem read_error_position (af : AnnFixes) (fx : Fixes) (t : Target) (p : String) (a : Arr) (idx : Nat)
+    (msg : String) (ann : List (String × String)) :
+    (readAnyA fx p a idx = .error (.errCtx msg ann) → ∃ q ∈ rpositions p a, ann = [("data_type", q.2), ("field", q.1)]) ∧
+    (readAsA af fx p t a idx = .error (.errCtx msg ann) → ∃ q ∈ rpositions p a, ann = [("data_type", q.2), ("field", q.1)]) :=
+  ⟨readAnyA_within fx a p idx msg ann, readAsA_within af fx t p a idx msg ann⟩
+
+/-- the record level (`Deserializer::get(idx)` + `T::deserialize`): an error is always annotated, and names `$` or
+a reader below `$.<column>` with that reader's label -/
+theorem readRecord_error_position (fx : Fixes) (t : Target) (fm : FieldMeta) (col : Arr) (idx : Nat) (e : Fail)
+    (h : readRecordA AnnFixes.all fx t fm col idx = some (.error e)) :
+    (∃ site, e = .panic site) ∨ ∃ msg q, e = .errCtx msg [("data_type", q.2), ("field", q.1)] ∧
+      (q = ("$", "Struct(..)") ∨ q ∈ rpositions ("$." ++ rchildName fm.name) col) := by
+  unfold readRecordA at h
+  split at h
+  · cases h
+  · simp only [Option.some.injEq] at h
+    cases e with
+    | panic s => exact .inl ⟨s, rfl⟩
+    | err msg => exact absurd h (readAsA_not_plain fx t _ _ idx msg)
+    | errCtx msg ann =>
+      obtain ⟨q, hq, rfl⟩ := readAsA_within AnnFixes.all fx t "$" _ idx msg ann h
+      refine .inr ⟨msg, q, rfl, ?_⟩
+      simp only [record, rpositions, rpositionsF, List.append_nil, List.mem_cons] at hq
+      rcases hq with rfl | hq
+      · exact .inl rfl
+      · right
+        have e1 : rchild "$" fm.name = "$." ++ rchildName fm.name := by
+          unfold rchild
+          have : ("$" : String) ++ "." = "$." := by decide
+          rw [this]
+        rw [← e1]; exact hq
+
+/-! ### witnesses -/
+
+/-- a union column `c` holding variant `f0`, read into an enum that has no such variant -/
+def exUnion : Arr := .union [0] (some [0]) (.cons 0 ⟨"f0", false, []⟩ (.prim .int32 none [7]) .nil)
+def exUnionTarget : Target := .struct (.cons "c" (.enum false (.cons "x" (.newtype .any) .nil)) .nil)
+
+/-- the code that exists blames the union column … -/
+theorem fixed_union_blames_union :
+    readRecordA AnnFixes.all Fixes.all exUnionTarget ⟨"c", false, []⟩ exUnion 0 =
+      some (.error (.errCtx "unknown variant" [("data_type", "Union(..)"), ("field", "$.c")])) := by decide
+
+/-- … the pinned tree only names the root (an ancestor): the C18 violation repaired by
+`fix: EnumDeserializer annotates the errors of deserialize_enum …` -/
+theorem pinned_union_blames_ancestor :
+    readRecordA AnnFixes.pinned Fixes.all exUnionTarget ⟨"c", false, []⟩ exUnion 0 =
+      some (.error (.errCtx "unknown variant" [("data_type", "Struct(..)"), ("field", "$")])) := by decide
+
+/-- a struct column whose fixed-size-list child is shorter than the struct (row 1 does not exist in the child) -/
+def exFsl : Arr := .struct 2 none (.cons ⟨"x", false, []⟩
+  (.fixedSizeList 1 none 2 ⟨"item", false, []⟩ (.prim .int32 none [1, 2])) .nil)
+def exFslTarget : Target := .struct (.cons "c" (.struct (.cons "x" (.seq .any) .nil)) .nil)
+
+theorem fixed_fsl_blames_list :
+    readRecordA AnnFixes.all Fixes.all exFslTarget ⟨"c", false, []⟩ exFsl 1 =
+      some (.error (.errCtx "Out of bounds access" [("data_type", "FixedSizeList(..)"), ("field", "$.c.x")])) := by decide
+
+/-- pinned: blamed on the enclosing struct column (`fix: FixedSizeListDeserializer annotates the errors of
+deserialize_seq …`) -/
+theorem pinned_fsl_blames_ancestor :
+    readRecordA AnnFixes.pinned Fixes.all exFslTarget ⟨"c", false, []⟩ exFsl 1 =
+      some (.error (.errCtx "Out of bounds access" [("data_type", "Struct(..)"), ("field", "$.c")])) := by decide
+
+/-- non-vacuity of `reader_paths_assembled` / `read_error_position`: a map column below a list -/
+example :
+    rpositions "$.c" (.list false none [0, 1] ⟨"", true, []⟩
+      (.map none [0, 1] ⟨"entries", false, ⟨"key", false, []⟩, ⟨"", true, []⟩⟩
+        (.bytes .utf8 none [0, 1] [97]) (.dictionary (.prim .int8 none [0]) (.bytes .utf8 none [0, 1] [98])))) =
+      [("$.c", "List(..)"), ("$.c.<empty>", "Map(..)"), ("$.c.<empty>.entries.key", "Utf8"),
+       ("$.c.<empty>.entries.<empty>", "Dictionary(..)")] := by decide
 
 end SaModel.Props.C18
